@@ -67,6 +67,13 @@ def main(argv):
 
     corpus = outpath + '.corpus'
     os.makedirs(corpus, exist_ok=True)
+    # starting corpus: byte strings long enough for the strategy to complete a case (an empty corpus makes libFuzzer
+    # give up before any structured case is built); pseudo-random, fixed by the campaign seed
+    import random
+    rng = random.Random(seed)
+    for i, n in enumerate((512, 2048, 4096, 8192, 8192, 16384)):
+        with open(os.path.join(corpus, 'seed%d' % i), 'wb') as f:
+            f.write(bytes(rng.getrandbits(8) for _ in range(n)))
     args = [sys.argv[0], '-runs=%d' % runs, '-seed=%d' % (seed or 1), '-max_len=16384', '-len_control=0', '-print_final_stats=0',
             '-verbosity=0', corpus]
     dump()
